@@ -123,6 +123,20 @@ class MiniEval:
             a, b = self.expr(e.left, env), self.expr(e.comparators[0], env)
             same = a is b or (a is None and b is None)
             return same if isinstance(e.ops[0], ast.Is) else not same
+        if isinstance(e, ast.Compare) and len(e.ops) == 1 and isinstance(e.ops[0], (ast.Eq, ast.NotEq)):
+            # equality of a value with a constant: decided only where the abstract value says what it is (('v', 'EMPTY') is the empty
+            # string the repository itself supplies; any other value token is some non-empty text); anything else is refused
+            a, b = self.expr(e.left, env), self.expr(e.comparators[0], env)
+            if isinstance(b, tuple) and b[:1] == ('const',) and isinstance(a, tuple) and a[:1] == ('v',) or a is None:
+                eq = (a is not None) and ((a == ('v', 'EMPTY')) == (b[1] == '')) and (a == ('v', 'EMPTY') or b[1] != '') and (a == ('v', 'EMPTY'))
+                if a is None:
+                    eq = False
+                elif b[1] == '':
+                    eq = a == ('v', 'EMPTY')
+                else:
+                    raise self.fail(e, 'comparison of an abstract value with a non-empty constant')
+                return eq if isinstance(e.ops[0], ast.Eq) else not eq
+            raise self.fail(e, 'expression')
         if isinstance(e, ast.IfExp):
             return self.expr(e.body, env) if self.truth(self.expr(e.test, env)) else self.expr(e.orelse, env)
         if isinstance(e, ast.Tuple):
